@@ -330,6 +330,26 @@ pub(super) fn resolve_function_signature(
   collector
 }
 
+fn collect_generic_names(t: &Type, collector: &mut HashSet<PStr>) {
+  match t {
+    Type::Any(_, _) | Type::Primitive(_, _) => {}
+    Type::Nominal(nominal_type) => {
+      for targ in &nominal_type.type_arguments {
+        collect_generic_names(targ, collector);
+      }
+    }
+    Type::Generic(_, name) => {
+      collector.insert(*name);
+    }
+    Type::Fn(f) => {
+      for t in &f.argument_types {
+        collect_generic_names(t, collector);
+      }
+      collect_generic_names(&f.return_type, collector);
+    }
+  }
+}
+
 fn resolve_method_signature_recursive(
   global_cx: &GlobalSignature,
   interface_type: &NominalType,
@@ -349,10 +369,40 @@ fn resolve_method_signature_recursive(
       subst_mapping.insert(tparam.name, targ.dupe());
     }
     if let Some(info) = interface_cx.methods.get(&method_name) {
+      // A type argument can mention a type parameter of the caller that is spelled like one of the
+      // method's own type parameters. Those of the method are renamed apart first, so that the
+      // substitution below does not capture them.
+      let mut names_in_type_arguments = HashSet::new();
+      for targ in &interface_type.type_arguments {
+        collect_generic_names(targ, &mut names_in_type_arguments);
+      }
+      let mut renaming = HashMap::new();
+      for (i, tparam) in info.type_parameters.iter().enumerate() {
+        if names_in_type_arguments.contains(&tparam.name) && i < 10 {
+          // `$` cannot be part of a name in the source.
+          let fresh = PStr::two_letter_literal(&[b'$', b'0' + (i as u8)]);
+          renaming.insert(tparam.name, (fresh, Arc::new(Type::Generic(Reason::dummy(), fresh))));
+        }
+      }
+      let (renamed_type_parameters, renamed_type) = if renaming.is_empty() {
+        (info.type_parameters.clone(), info.type_.clone())
+      } else {
+        let mapping = renaming.iter().map(|(n, (_, t))| (*n, t.dupe())).collect::<HashMap<_, _>>();
+        (
+          info
+            .type_parameters
+            .iter()
+            .map(|tparam| TypeParameterSignature {
+              name: renaming.get(&tparam.name).map(|(fresh, _)| *fresh).unwrap_or(tparam.name),
+              bound: tparam.bound.as_ref().map(|t| type_system::subst_nominal_type(t, &mapping)),
+            })
+            .collect(),
+          type_system::subst_fn_type(&info.type_, &mapping),
+        )
+      };
       collector.push(MemberSignature {
         is_public: info.is_public,
-        type_parameters: info
-          .type_parameters
+        type_parameters: renamed_type_parameters
           .iter()
           .map(|tparam| {
             let bound =
@@ -360,7 +410,7 @@ fn resolve_method_signature_recursive(
             TypeParameterSignature { name: tparam.name, bound }
           })
           .collect(),
-        type_: type_system::subst_fn_type(&info.type_, &subst_mapping),
+        type_: type_system::subst_fn_type(&renamed_type, &subst_mapping),
       });
     }
     for super_type in &interface_cx.super_types {
